@@ -84,7 +84,26 @@ def strat_inproc(draw):
         fl = draw(st.lists(st.sampled_from(['-p', '-v', '-c', '-q']), unique=True, max_size=3))
         args = ['--seed', str(seed)] + fl
     else:
-        kind = draw(st.sampled_from(['graph-random', 'graph-random', 'numeric-random', 'deterministic']))
+        kind = draw(st.sampled_from(['graph-random', 'graph-random', 'numeric-random', 'deterministic'] + (['graph-in-T'] if tool == 'cnfgen' else [])))
+        if kind == 'graph-in-T':
+            # a (random) bipartite graph handed explicitly to a compression step: its left side must have one vertex per variable
+            base = draw(st.sampled_from(['php', 'op', 'randkcnf']))
+            if base == 'php':
+                m, n = draw(st.integers(1, 3)), draw(st.integers(1, 3))
+                cmd, V = ['php', str(m), str(n)], m * n
+            elif base == 'op':
+                n = draw(st.integers(2, 3))
+                cmd, V = ['op', str(n)], n * (n - 1)
+            else:
+                n = draw(st.integers(3, 6))
+                cmd, V = ['randkcnf', '3', str(n), str(draw(st.integers(0, 6)))], n
+            spec = draw(argv_gen.bipartite_spec(random_ok=True, det_ok=draw(st.integers(0, 3)) == 0, L=V))
+            labels.append('graph-in-T')
+            args = ['--seed', str(seed)] + draw(st.sampled_from(argv_gen.OUTPUT_OPTS)) + cmd + ['-T', draw(st.sampled_from(['xorcomp', 'majcomp']))] + spec
+            if draw(st.booleans()):
+                args += draw(argv_gen.tchain(max_len=1, allow_expanding=False))
+            return {'tool': tool, 'args': args, 'seed': seed, 'stdin': None, 'labels': labels,
+                    'junk1': draw(st.integers(0, 1000)), 'junk2': draw(st.integers(1001, 2000))}
         if kind == 'graph-random':
             cmd = draw(argv_gen.graph_command(random_ok=True, det_ok=True))
             labels.append('random-graph-arg')
@@ -288,9 +307,9 @@ def enum_libseed(tier):
 
 SUBCHECKS = [
     SubCheck('inproc', run_inproc, strategy=strat_inproc, quick=800, thorough=60000,
-             rule="command lines with --seed (seeds 0, 1, -1, 2^31, 2^64+3 and random) for cnfgen (+ -T chains), pbgen and cnfshuffle (DIMACS on stdin): every graph-taking sub-command with random and deterministic graph constructions and random modifiers, numeric random sub-commands, deterministic ones, all output formats; oracle: two in-process runs of main() started from two different states of the global generator print identical (exit status, stdout, stderr) and no object address; non-trivial: exit 0 and the global generator was advanced past a freshly seeded state (the run drew random numbers)",
+             rule="command lines with --seed (seeds 0, 1, -1, 2^31, 2^64+3 and random) for cnfgen (+ -T chains), pbgen and cnfshuffle (DIMACS on stdin): every graph-taking sub-command with random and deterministic graph constructions and random modifiers, numeric random sub-commands, deterministic ones, '-T xorcomp|majcomp <random bipartite construction>' with the graph sampled while the command line is parsed, all output formats; oracle: two in-process runs of main() started from two different states of the global generator print identical (exit status, stdout, stderr) and no object address; non-trivial: exit 0 and the global generator was advanced past a freshly seeded state (the run drew random numbers)",
              required_labels=['seed=0', 'random-graph-arg', 'random-family', 'random-transformation', 'two-random-sources',
-                              'pbgen', 'cnfshuffle', 'cnfgen', 'deterministic-family']),
+                              'pbgen', 'cnfshuffle', 'cnfgen', 'deterministic-family', 'graph-in-T']),
     SubCheck('xproc', run_xproc, strategy=strat_xproc, quick=32, thorough=1600,
              rule="batches of 1..30 of the same command lines, each batch executed in two fresh processes with different PYTHONHASHSEED (0/1/4242 vs random/17/99999) and different working directories; oracle: identical exit status and stdout bytes (header included); non-trivial: exit 0",
              required_labels=['cross-process', 'cross-cwd']),
